@@ -10,8 +10,10 @@ VARIABLE sc
 gvars == <<vars, sc>>
 
 Blk(c)  == [c |-> c, ok |-> TRUE]
-Honest  == [honest |-> TRUE,  dl |-> <<>>, end |-> "close"]
-Scripted(dl, end) == [honest |-> FALSE, dl |-> dl, end |-> end]
+\* pf = the positions (1 = first Put/PutMany of the call on the local store) at which the store fails
+Honest  == [honest |-> TRUE,  dl |-> <<>>, end |-> "close", pf |-> {}]
+ScriptedF(dl, end, pf) == [honest |-> FALSE, dl |-> dl, end |-> end, pf |-> pf]
+Scripted(dl, end) == ScriptedF(dl, end, {})
 Op(op, sess, ks, bs, script) == [op |-> op, sess |-> sess, ks |-> ks, bs |-> bs, script |-> script]
 Scn(ex, wt, al, pre, ops) == [cfg |-> [ex |-> ex, wt |-> wt, al |-> al], pre |-> pre, ops |-> ops]
 BlkSeq(b) == [i \in 1..Len(b) |-> Blk(b[i])]
@@ -58,35 +60,80 @@ Init04 == \E x \in Combos : LET al == x[1] p == x[2] IN
 
 (* ---- C05: request multisets (with duplicates) x partially local data x exchange scripts --- *)
 G(i) == <<"sha256", i>>
+A(i) == <<"sha256pb", i>>      \* ALIAS of G(i): same multihash, CIDv1 dag-pb
+Z(i) == <<"sha256v0", i>>      \* ALIAS of G(i): same multihash, CIDv0
+ASSUME Mh(A(1)) = Mh(G(1)) /\ Mh(Z(1)) = Mh(G(1)) /\ Mh(G(2)) # Mh(G(1))
+Key(x) == IF x < 10 THEN G(x) ELSE IF x < 20 THEN A(x - 10) ELSE Z(x - 20)
 Patterns == {<<1>>, <<1,1>>, <<1,2>>, <<1,1,1>>, <<1,1,2>>, <<1,2,1>>, <<1,2,2>>, <<1,2,3>>}  \* up to renaming
-Req(pt)  == [i \in 1..Len(pt) |-> G(pt[i])]
+Req(pt)  == [i \in 1..Len(pt) |-> Key(pt[i])]
 \* what a malicious exchange may hand back: the requested blocks, corrupted ones (right CID, wrong
 \* bytes), a block nobody asked for, a block whose CID the validator rejects
 Alphabet == {[c |-> G(1), ok |-> TRUE], [c |-> G(2), ok |-> TRUE], [c |-> G(3), ok |-> TRUE],
              [c |-> G(1), ok |-> FALSE], [c |-> G(2), ok |-> FALSE],
              [c |-> G(4), ok |-> TRUE], [c |-> <<"trunc16", 1>>, ok |-> TRUE]}
 Scripts(N) == UNION {[1..n -> Alphabet] : n \in 0..N}
-LocalSeq(pt, L) == BlkSeq(SelectSeq(<<G(1), G(2), G(3)>>, LAMBDA c : c \in L))
+Universe == <<G(1), A(1), Z(1), G(2), G(3)>>
+LocalSeq(pt, L) == BlkSeq(SelectSeq(Universe, LAMBDA c : c \in L))
 \* scenarios that differ only in blocks the request never looks at are the same scenario
-Relevant(pt, L) == L \subseteq ToSet(Req(pt))
+Relevant(pt, L) == MhOf(L) \subseteq MhOf(ToSet(Req(pt)))
 \* if everything requested is local the exchange is never asked: one script suffices
-Useful(pt, L, dl) == ToSet(Req(pt)) \subseteq L => dl = <<>>
+Useful(pt, L, dl) == MhOf(ToSet(Req(pt))) \subseteq MhOf(L) => dl = <<>>
+
+\* ... and CID ALIASES: the exchange (bitswap addresses blocks by multihash) answers with the same
+\* bytes under another codec / CID version; requests name one alias, two aliases, an alias next to
+\* another block; the store (keyed by multihash) holds the bytes put under any of the aliases
+AliasPatterns == {<<1>>, <<11>>, <<21>>, <<1,11>>, <<11,21>>, <<11,2>>}
+AliasAlphabet == {[c |-> G(1), ok |-> TRUE], [c |-> A(1), ok |-> TRUE], [c |-> Z(1), ok |-> TRUE],
+                  [c |-> G(2), ok |-> TRUE], [c |-> A(1), ok |-> FALSE]}
+AliasScripts(N) == UNION {[1..n -> AliasAlphabet] : n \in 0..N}
+AliasLocals == {{}, {G(1)}, {A(1)}, {G(2)}, {Z(1), G(2)}}
+
+\* ... and FAULTS of the local store: the k-th Put of the call fails, for every position k of the
+\* script (and for all of them), the exchange delivering requested blocks, duplicates, an alias
+\* (quick tier: 4 request patterns, scripts <= 2, one failing position; thorough: all patterns, an alias in
+\*  the scripts, also every script of 3 requested-able blocks, also all positions failing)
+FaultAlphabet == {[c |-> G(1), ok |-> TRUE], [c |-> G(2), ok |-> TRUE], [c |-> G(3), ok |-> TRUE]}
+FaultScripts  == UNION {[1..n -> FaultAlphabet \cup IF Full THEN {[c |-> A(1), ok |-> TRUE]} ELSE {}] : n \in 1..2}
+                 \cup IF Full THEN [1..3 -> FaultAlphabet] ELSE {}
+FaultPatterns == IF Full THEN Patterns ELSE {<<1>>, <<1,2>>, <<1,2,1>>, <<1,2,3>>}
+FailAt(dl) == {{k} : k \in 1..Len(dl)} \cup IF Full THEN {1..Len(dl)} ELSE {}
+\* one delivery: the Put fails or not
+Fail1(dl) == IF dl = <<>> THEN {{}} ELSE {{}, {1}}
+
 Init05 ==
     \/ \E pt \in Patterns, L \in SUBSET {G(1), G(2), G(3)}, dl \in Scripts(IF Full THEN 3 ELSE 2) :
           /\ Relevant(pt, L) /\ Useful(pt, L, dl)
           /\ sc = Scn("plain", FALSE, "default", LocalSeq(pt, L),
                       <<Op("GetBlocks", "none", Req(pt), <<>>, Scripted(dl, "close"))>>)
-       \* session-capable exchange, the request fails / short scripts, followed by a second honest request
+       \* aliases
+    \/ \E pt \in AliasPatterns, L \in AliasLocals, dl \in AliasScripts(IF Full THEN 2 ELSE 1) :
+          /\ Relevant(pt, L) /\ Useful(pt, L, dl)
+          /\ sc = Scn("plain", FALSE, "default", LocalSeq(pt, L),
+                      <<Op("GetBlocks", "none", Req(pt), <<>>, Scripted(dl, "close"))>>)
+       \* store faults
+    \/ \E pt \in FaultPatterns, L \in SUBSET {G(1), G(2), G(3)}, dl \in FaultScripts :
+          /\ Relevant(pt, L) /\ ~(ToSet(Req(pt)) \subseteq L)
+          /\ \E pf \in FailAt(dl) :
+                sc = Scn("plain", FALSE, "default", LocalSeq(pt, L),
+                         <<Op("GetBlocks", "none", Req(pt), <<>>, ScriptedF(dl, "close", pf))>>)
+       \* session-capable exchange, the request fails / short scripts (the Put failing or not), followed by
+       \* a second honest request
     \/ \E pt \in IF Full THEN Patterns ELSE {<<1>>, <<1,2>>}, L \in SUBSET {G(1), G(2), G(3)}, dl \in Scripts(1), end \in {"close", "err"},
            ss \in IF Full THEN {"ses", "ctx"} ELSE {"ses"} :
           /\ Relevant(pt, L) /\ Useful(pt, L, dl)
-          /\ sc = Scn("sessx", FALSE, "default", LocalSeq(pt, L),
-                      <<Op("GetBlocks", ss, Req(pt), <<>>, Scripted(dl, end)), Op("GetBlocks", ss, Req(pt), <<>>, Honest)>>)
-       \* GetBlock: the exchange returns any block of the alphabet, or fails; then the same request again
-    \/ \E ex \in {"plain", "sessx"}, ss \in Sess, L \in SUBSET {G(1)}, dl \in Scripts(1) :
-          sc = Scn(ex, FALSE, "default", LocalSeq(<<1>>, L),
-                   <<Op("GetBlock", ss, <<G(1)>>, <<>>, Scripted(dl, IF dl = <<>> THEN "err" ELSE "close")),
-                     Op("GetBlock", ss, <<G(1)>>, <<>>, Honest)>>)
+          /\ \E pf \in IF end = "err" THEN {{}} ELSE Fail1(dl) :
+                sc = Scn("sessx", FALSE, "default", LocalSeq(pt, L),
+                         <<Op("GetBlocks", ss, Req(pt), <<>>, ScriptedF(dl, end, pf)), Op("GetBlocks", ss, Req(pt), <<>>, Honest)>>)
+       \* GetBlock(any alias): the exchange returns any block of the alphabet or an alias, or fails, the
+       \* caching Put fails or not; then the same request again
+    \/ \E x \in IF Full THEN {"plain", "sessx"} \X Sess ELSE {<<"plain", "none">>, <<"sessx", "ses">>, <<"sessx", "ctx">>},
+          k \in {1, 11, 21}, L \in {{}, {G(1)}, {A(1)}},
+          dl \in UNION {[1..n -> Alphabet \cup {[c |-> A(1), ok |-> TRUE], [c |-> Z(1), ok |-> TRUE]}] : n \in 0..1} :
+          /\ Useful(<<k>>, L, dl)
+          /\ \E pf \in Fail1(dl) :
+                sc = Scn(x[1], FALSE, "default", LocalSeq(<<k>>, L),
+                         <<Op("GetBlock", x[2], <<Key(k)>>, <<>>, ScriptedF(dl, IF dl = <<>> THEN "err" ELSE "close", pf)),
+                           Op("GetBlock", x[2], <<Key(k)>>, <<>>, Honest)>>)
 
 GInit == /\ IF Mode = "C04" THEN Init04 ELSE Init05
          /\ cfg = sc.cfg /\ local = {} /\ calls = << >> /\ last = NoHand /\ dev = {}
